@@ -3,6 +3,11 @@ import Dashu.Driver.Int
 import Dashu.Driver.Div
 import Dashu.Driver.Bits
 import Dashu.Driver.Text
+import Dashu.Driver.Conv
+import Dashu.Driver.NT
+import Dashu.Driver.Float
+import Dashu.Driver.Ratio
+import Dashu.Driver.Cross
 import Dashu.Model.Serde.Num
 import Dashu.Model.Serde.Log2Cfg
 /-
@@ -217,7 +222,30 @@ def parseConf (c : String) : Option (Nat × String × String) :=
     if (s = "std" ∨ s = "nostd") ∧ (p = "dev" ∨ p = "rel") then W.map fun W => (W, s, p) else none
   | _ => none
 
-def inner (W : Nat) (op : String) (args : List String) : Option String :=
+/-- `<group>/<op>`: the op as `drive_<group>` dispatches it.  `std` matters for one family only:
+    `log2_bounds` (the no_std build uses the table estimator; C12's driver has those models under the
+    op `ns`, which takes the op name as an argument). -/
+def grouped (std : Bool) (W : Nat) (group op : String) (args : List String) : Option String :=
+  let first (ds : List Dispatch) : Option String := ds.findSome? fun d => d W op args
+  match group with
+  | "int" => first [Int.dispatch, Bits.dispatch]
+  | "div" => first [Div.dispatch, Int.dispatch]
+  | "bits" => first [Bits.dispatch]
+  | "text" => first [Text.dispatch]
+  | "conv" => first [Conv.dispatch]
+  | "nt" =>
+    if !std && (op = "p.log2b" || op = "p.log2brange" || op = "p.flog2b" || op = "u.log2b") then
+      NT.dispatch W "ns" ("_" :: op :: args)
+    else first [NT.dispatch]
+  | "float" => first [Float.dispatchWith false]
+  | "ratio" => first [Ratio.dispatchAll]
+  | "cross" => first [Cross.dispatch]
+  | _ => none
+
+def inner (std : Bool) (W : Nat) (op : String) (args : List String) : Option String :=
+  match op.splitOn "/" with
+  | [g, iop] => grouped std W g iop args
+  | _ =>
   match serde op args with
   | some r => some r
   | none =>
@@ -238,11 +266,17 @@ def dispatch : Dispatch := fun _ op args =>
     pure (ok ("w" ++ toString W ++ " " ++ s ++ " " ++ p))
   | "cfg", conf :: iop :: iargs => do
     let (W, s, _) ← parseConf conf
-    if iop.startsWith "lg." then logOps (s == "std") W iop iargs else inner W iop iargs
+    if iop.startsWith "lg." then logOps (s == "std") W iop iargs else inner (s == "std") W iop iargs
   | "cfgall", iop :: iargs => do
-    let a ← inner 64 iop iargs
-    let b ← inner 32 iop iargs
-    pure (if a = b then a else a ++ " !model-word-size-disagree w32=" ++ b)
+    let a ← inner true 64 iop iargs
+    let b ← inner true 32 iop iargs
+    -- a driver that does not mirror some branch at one word size says so (`…-not-mirrored`): then the
+    -- other word size's answer stands alone
+    let unmirrored (x : String) : Bool := (x.splitOn "-not-mirrored").length > 1
+    pure (if a = b then a
+          else if unmirrored b then a
+          else if unmirrored a then b
+          else a ++ " !model-word-size-disagree w32=" ++ b)
   | _, _ => none
 
 end Dashu.Driver.Cfg
